@@ -29,7 +29,7 @@ pub static DEF: PropDef = PropDef {
 fn cases(t: Tier) -> u64 {
   match t {
     Tier::Quick => 6_000,
-    Tier::Thorough => 600_000,
+    Tier::Thorough => 80_000,
   }
 }
 
